@@ -31,7 +31,7 @@ Init == t = 1 /\ k = 1 /\ dir = IF NT >= 1 THEN ToSet(Traces[1].dir) ELSE {}
 Cur == Traces[t]
 E == Cur.ev[k]
 \* the descriptor the decision tree looks at
-ImOf(ev) == [name |-> ev.name, filters |-> ev.filters, bits |-> ev.bits, cs |-> ev.cs, w |-> ev.w, h |-> ev.h,
+ImOf(ev) == [sp |-> PlainSpelling, name |-> ev.name, filters |-> ev.filters, bits |-> ev.bits, cs |-> ev.cs, w |-> ev.w, h |-> ev.h,
              pk |-> IF ev.bits = 1 THEN "bw" ELSE IF ev.bits = 8 /\ ev.cs = "RGB" THEN "rgb" ELSE IF ev.bits = 8 /\ ev.cs = "G" THEN "gray" ELSE "other"]
 
 \* BMPWriter as recorded: geometry, header position, one seek+write per row, top row first
